@@ -200,6 +200,11 @@ func (m *infixModel) atomOf(p *pwPath, t *opTab, v ssa.Value, depth int) (side s
 		return m.atomOf(p, t, x.X, depth+1)
 	case *ssa.TypeAssert:
 		return m.atomOf(p, t, x.X, depth+1)
+	case *ssa.Extract:
+		// the value part of a comma-ok assertion (used where ok was found true)
+		if ta, ok := x.Tuple.(*ssa.TypeAssert); ok && x.Index == 0 {
+			return m.atomOf(p, t, ta.X, depth+1)
+		}
 	case *ssa.Call:
 		cal := x.Call.StaticCallee()
 		if cal == m.truthy && len(x.Call.Args) == 2 {
